@@ -42,6 +42,9 @@ public:
 
     void deleteLink(std::string name, hid_t plist = H5L_SAME_LOC);
 
+    // throws H5Error when the file this object lives in was opened read-only
+    void checkWritable() const;
+
     unsigned int referenceCount() const;
 
     LocID &operator=(const LocID &other) {
@@ -67,6 +70,9 @@ template<typename T> void LocID::setAttr(const std::string &name, const T &value
     Attribute attr;
 
     if (hasAttr(name)) {
+        // H5Awrite on a read-only file fails only after it has overwritten the
+        // cached copy of the attribute: refuse before anything is touched
+        checkWritable();
         attr = openAttr(name);
     } else {
         h5x::DataType fileType = data_type_to_h5_filetype(dtype);
